@@ -59,6 +59,8 @@ type esApp struct {
 	mw     bool
 	after  bool
 	grpMw  bool
+	slash  bool // mounted with a trailing slash in the prefix ("/api/"): the same mount
+	late   bool // mounted only after the application has started and served an error
 }
 
 type esOp struct {
@@ -192,7 +194,25 @@ func errselMain(s *simrt.Sim, info *harness.RunInfo) {
 		a.mw = s.Chance(300)
 		a.after = s.Chance(250)
 		a.grpMw = a.group != "" && s.Chance(400)
+		a.slash = s.Chance(150)
+		a.late = s.Chance(200)
 		tree = append(tree, a)
+	}
+	for i := range tree {
+		// only leaves are mounted late (an app mounted late brings its own mounts with it anyway)
+		for j := range tree {
+			if j != i && j > 0 && tree[j].parent == i {
+				tree[i].late = false
+			}
+		}
+	}
+	tree[0].late = false
+	for i := range tree {
+		// late mounts go onto the running root application; what a sub-application that is already
+		// mounted makes of a later mount of its own is not the root's to know (not asked)
+		if tree[i].parent != 0 {
+			tree[i].late = false
+		}
 	}
 	if safe {
 		// no handler-less mount below (by prefix) a mount that configured a handler
@@ -234,6 +254,12 @@ func errselMain(s *simrt.Sim, info *harness.RunInfo) {
 			fmt.Fprintf(&tb, " group %s", a.group)
 		}
 		fmt.Fprintf(&tb, " at %s", a.prefix)
+		if a.slash {
+			tb.WriteString("/ (trailing slash)")
+		}
+		if a.late {
+			tb.WriteString(", mounted late")
+		}
 		if a.mw {
 			tb.WriteString(", mw")
 		}
@@ -423,17 +449,29 @@ func errselMain(s *simrt.Sim, info *harness.RunInfo) {
 				routes(apps[i], i)
 			}
 		}
-		for _, i := range order {
+		mount := func(i int) {
 			a := tree[i]
+			prefix := a.prefix
+			if a.slash {
+				prefix += "/"
+			}
 			if a.group == "" {
-				apps[a.parent].Use(a.prefix, apps[i])
-				continue
+				apps[a.parent].Use(prefix, apps[i])
+				return
 			}
 			g := apps[a.parent].Group(a.group)
 			if a.grpMw {
 				g.Use(mw("grp" + strconv.Itoa(i) + "-mw"))
 			}
-			g.Use(a.prefix, apps[i])
+			g.Use(prefix, apps[i])
+		}
+		anyLate := false
+		for _, i := range order {
+			if tree[i].late {
+				anyLate = true
+				continue
+			}
+			mount(i)
 		}
 		if !routesFirst {
 			for i := range tree {
@@ -441,6 +479,20 @@ func errselMain(s *simrt.Sim, info *harness.RunInfo) {
 			}
 		}
 		apps[0].Handler()
+		if anyLate {
+			// the application is up and has already answered an error when further sub-applications
+			// are mounted; all judged requests come afterwards and see the whole tree
+			warm := &esReq{op: &esOp{id: -1, site: "none"}}
+			reqs = append(reqs, warm)
+			harness.NewConn(apps[0], "10.0.9.9").Do(harness.Req{Method: "GET", Path: "/warm-up-404", Headers: [][2]string{{"X-Op", strconv.Itoa(len(reqs) - 1)}}}.Bytes())
+			for _, i := range order {
+				if tree[i].late {
+					mount(i)
+				}
+			}
+			apps[0].Handler()
+			s.Count("probe_sub_application_mounted_after_start")
+		}
 		return apps[0]
 	}
 	conns := make([]*harness.Conn, nbuilds)
@@ -555,6 +607,18 @@ func errselMain(s *simrt.Sim, info *harness.RunInfo) {
 					}
 					continue
 				default:
+					lateScope := false
+					for k := 1; k < len(tree); k++ {
+						if tree[k].late && esContains(tree[k].full, op.path) {
+							lateScope = true
+						}
+					}
+					if lateScope {
+						// whether the router answers 404 or 405 below a sub-application that was mounted
+						// after the start is a question of routing (C01), not of error delivery
+						s.Count("probe_router_error_below_late_mount_not_judged")
+						continue
+					}
 					switch {
 					case !registered[op.path]:
 						owedCode = 404
